@@ -19,11 +19,16 @@ from . import props as P
 from . import run_verus as RV
 
 VERIF = A.VERIF
-BUILD = os.path.join(VERIF, "build")
-REPLAYS = os.path.join(VERIF, "replays")
-EVID = os.path.join(VERIF, "evidence")
+# with VERIF_REPO=<scratch tree> all outputs go next to that tree: evidence/, build/, replays/ of /verif describe /repo only
+_OUT = VERIF if A.REPO == "/repo" else A.REPO.rstrip("/") + "__verif_out"
+BUILD = os.path.join(_OUT, "build")
+REPLAYS = os.path.join(_OUT, "replays")
+EVID = os.path.join(_OUT, "evidence")
 REPLAY_CRATE = os.path.join(VERIF, "replay")
-REPLAY_BIN = os.path.join(REPLAY_CRATE, "target", "debug", "verif_replay")
+# VERIF_REPO=<scratch tree> (seeded-change runs, mutation tests): the replay crate is built against that tree's
+# cwe_checker_lib (cargo `paths` override) into a target directory next to it, so /repo and replay/target stay untouched.
+ALT_TARGET = None if A.REPO == "/repo" else os.path.join(A.REPO.rstrip("/") + "__replay_target")
+REPLAY_BIN = os.path.join(ALT_TARGET or os.path.join(REPLAY_CRATE, "target"), "debug", "verif_replay")
 
 
 def short(label):
@@ -51,7 +56,11 @@ def build_replay_crate():
         import shutil
         shutil.copy(lock_src, lock_dst)
     env = dict(os.environ, CARGO_NET_OFFLINE="true")
-    p = subprocess.run(["cargo", "build", "--offline", "-q"], cwd=REPLAY_CRATE, capture_output=True, text=True, env=env)
+    cmd = ["cargo", "build", "--offline", "-q"]
+    if ALT_TARGET:
+        env["CARGO_TARGET_DIR"] = ALT_TARGET
+        cmd += ["--config", 'paths=["%s/src/cwe_checker_lib"]' % A.REPO.rstrip("/")]
+    p = subprocess.run(cmd, cwd=REPLAY_CRATE, capture_output=True, text=True, env=env)
     if p.returncode != 0:
         return False, p.stderr[-2000:]
     return True, ""
